@@ -1160,7 +1160,11 @@ pub fn mk_f_ident<T: IdentFragment>(e: &T) -> (r: Ident)
 #[verifier::reject_recursive_types(T)]
 #[verifier::reject_recursive_types(P)]
 pub struct Punctuated<T, P> { _p: core::marker::PhantomData<(T, P)> }
-impl<T, P> Punctuated<T, P> { pub uninterp spec fn ptoks(&self) -> Seq<Tok>; }
+impl<T, P> Punctuated<T, P> {
+    pub uninterp spec fn ptoks(&self) -> Seq<Tok>;
+    // the elements, in order
+    pub uninterp spec fn pseq(&self) -> Seq<T>;
+}
 impl<T, P> ToTokens for Punctuated<T, P> {
     open spec fn toks(&self) -> Seq<Tok> { self.ptoks() }
     #[verifier::external_body]
@@ -1276,8 +1280,8 @@ impl<T> Vec<T> {
     { unimplemented!() }
 
     #[verifier::external_body]
-    pub fn extend(&mut self, other: Vec<T>)
-        ensures final(self)@ == old(self)@ + other@,
+    pub fn extend<I: IntoIter<Item = T>>(&mut self, other: I)
+        ensures final(self)@ == old(self)@ + other.into_items(),
     { unimplemented!() }
 }
 
@@ -1345,6 +1349,24 @@ pub open spec fn decides<T, F: Fn(&T) -> bool>(f: F, q: spec_fn(T) -> bool) -> b
     &&& forall|t: T| #[trigger] f.ensures((&t,), false) ==> !q(t)
 }
 
+pub trait IntoIter {
+    type Item;
+    // the elements it yields when iterated
+    spec fn into_items(&self) -> Seq<Self::Item>;
+}
+
+pub trait FromIter<T>: Sized {
+    // the elements the collection was built from, in order
+    spec fn collected(&self) -> Seq<T>;
+}
+
+// concatenation of a sequence of sequences
+pub open spec fn sflat<A>(s: Seq<Seq<A>>) -> Seq<A>
+    decreases s.len(),
+{
+    if s.len() == 0 { Seq::<A>::empty() } else { s[0] + sflat(s.drop_first()) }
+}
+
 pub trait Iterator: Sized {
     type Item;
 
@@ -1361,11 +1383,26 @@ pub trait Iterator: Sized {
         requires forall|t: Self::Item| #[trigger] predicate.requires((&t,)),
         ensures forall|q: spec_fn(Self::Item) -> bool| decides(predicate, q) ==> r.fitems() == #[trigger] sfilter(self.items(), q);
 
-    // core::iter::Iterator::map
+    // core::iter::Iterator::map: functional form (closure computes g) and relational form (i-th output is what the
+    // closure returns on the i-th input)
     fn map<B, F: Fn(Self::Item) -> B>(self, f: F) -> (r: Map<B, F>)
         requires forall|t: Self::Item| #[trigger] f.requires((t,)),
-        ensures forall|g: spec_fn(Self::Item) -> B| (forall|t: Self::Item, b: B| #[trigger] f.ensures((t,), b) ==> b == g(t))
-            ==> r.mitems() == #[trigger] self.items().map_values(g);
+        ensures
+            forall|g: spec_fn(Self::Item) -> B| (forall|t: Self::Item, b: B| #[trigger] f.ensures((t,), b) ==> b == g(t))
+                ==> r.mitems() == #[trigger] self.items().map_values(g),
+            r.mitems().len() == self.items().len(),
+            forall|i: int| 0 <= i < self.items().len() ==> f.ensures((self.items()[i],), #[trigger] r.mitems()[i]);
+
+    // core::iter::Iterator::flat_map: the concatenation of what the closure yields for each element
+    fn flat_map<U: IntoIter, F: Fn(Self::Item) -> U>(self, f: F) -> (r: FlatMap<U::Item>)
+        requires forall|t: Self::Item| #[trigger] f.requires((t,)),
+        ensures forall|g: spec_fn(Self::Item) -> Seq<U::Item>|
+            (forall|t: Self::Item, u: U| #[trigger] f.ensures((t,), u) ==> u.into_items() == g(t))
+            ==> r.fmitems() == #[trigger] sflat(self.items().map_values(g));
+
+    // core::iter::Iterator::collect
+    fn collect<B: FromIter<Self::Item>>(self) -> (r: B)
+        ensures r.collected() == self.items();
 
     // core::iter::Iterator::any
     fn any<P: Fn(Self::Item) -> bool>(&mut self, predicate: P) -> (r: bool)
@@ -1375,64 +1412,94 @@ pub trait Iterator: Sized {
             ==> r == (#[trigger] first(old(self).items(), q) is Some);
 }
 
-impl<'a, T> Iterator for Iter<'a, T> {
-    type Item = &'a T;
-    open spec fn items(&self) -> Seq<&'a T> { refs(self@) }
-    #[verifier::external_body]
-    fn find<P: Fn(&Self::Item) -> bool>(&mut self, predicate: P) -> (r: Option<Self::Item>) { unimplemented!() }
-    #[verifier::external_body]
-    fn filter<P: Fn(&Self::Item) -> bool>(self, predicate: P) -> (r: Filter<Self::Item, P>) { unimplemented!() }
-    #[verifier::external_body]
-    fn any<P: Fn(Self::Item) -> bool>(&mut self, predicate: P) -> (r: bool) { unimplemented!() }
-    #[verifier::external_body]
-    fn map<B, F: Fn(Self::Item) -> B>(self, f: F) -> (r: Map<B, F>) { unimplemented!() }
+} // verus!
+
+// every iterator type of the model gets the same assumed method bodies
+macro_rules! assumed_iterator {
+    ([$($gen:tt)*] $ty:ty, $item:ty, |$s:ident| $items:expr) => { verus! {
+        impl<$($gen)*> Iterator for $ty {
+            type Item = $item;
+            open spec fn items(&self) -> Seq<$item> { let $s = self; $items }
+            #[verifier::external_body]
+            fn find<P: Fn(&Self::Item) -> bool>(&mut self, predicate: P) -> (r: Option<Self::Item>) { unimplemented!() }
+            #[verifier::external_body]
+            fn filter<P: Fn(&Self::Item) -> bool>(self, predicate: P) -> (r: Filter<Self::Item, P>) { unimplemented!() }
+            #[verifier::external_body]
+            fn map<B, F: Fn(Self::Item) -> B>(self, f: F) -> (r: Map<B, F>) { unimplemented!() }
+            #[verifier::external_body]
+            fn flat_map<U: IntoIter, F: Fn(Self::Item) -> U>(self, f: F) -> (r: FlatMap<U::Item>) { unimplemented!() }
+            #[verifier::external_body]
+            fn collect<B: FromIter<Self::Item>>(self) -> (r: B) { unimplemented!() }
+            #[verifier::external_body]
+            fn any<P: Fn(Self::Item) -> bool>(&mut self, predicate: P) -> (r: bool) { unimplemented!() }
+        }
+        impl<$($gen)*> IntoIter for $ty {
+            type Item = $item;
+            open spec fn into_items(&self) -> Seq<$item> { let $s = self; $items }
+        }
+    } };
 }
+
+verus! {
 
 #[verifier::external_body]
 #[verifier::reject_recursive_types(T)]
 #[verifier::reject_recursive_types(P)]
 pub struct Filter<T, P> { _p: core::marker::PhantomData<(T, P)> }
-
-impl<T, P> Filter<T, P> {
-    pub uninterp spec fn fitems(&self) -> Seq<T>;
-}
-
-impl<T, P0> Iterator for Filter<T, P0> {
-    type Item = T;
-    open spec fn items(&self) -> Seq<T> { self.fitems() }
-    #[verifier::external_body]
-    fn find<P: Fn(&Self::Item) -> bool>(&mut self, predicate: P) -> (r: Option<Self::Item>) { unimplemented!() }
-    #[verifier::external_body]
-    fn filter<P: Fn(&Self::Item) -> bool>(self, predicate: P) -> (r: Filter<Self::Item, P>) { unimplemented!() }
-    #[verifier::external_body]
-    fn any<P: Fn(Self::Item) -> bool>(&mut self, predicate: P) -> (r: bool) { unimplemented!() }
-    #[verifier::external_body]
-    fn map<B, F: Fn(Self::Item) -> B>(self, f: F) -> (r: Map<B, F>) { unimplemented!() }
-}
-
+impl<T, P> Filter<T, P> { pub uninterp spec fn fitems(&self) -> Seq<T>; }
 
 #[verifier::external_body]
 #[verifier::reject_recursive_types(T)]
 #[verifier::reject_recursive_types(F)]
 pub struct Map<T, F> { _p: core::marker::PhantomData<(T, F)> }
+impl<T, F> Map<T, F> { pub uninterp spec fn mitems(&self) -> Seq<T>; }
 
-impl<T, F> Map<T, F> {
-    pub uninterp spec fn mitems(&self) -> Seq<T>;
+#[verifier::external_body]
+#[verifier::reject_recursive_types(T)]
+pub struct FlatMap<T> { _p: core::marker::PhantomData<T> }
+impl<T> FlatMap<T> { pub uninterp spec fn fmitems(&self) -> Seq<T>; }
+
+} // verus!
+
+assumed_iterator!(['a, T] Iter<'a, T>, &'a T, |s| refs(s.view()));
+assumed_iterator!([T, P0] Filter<T, P0>, T, |s| s.fitems());
+assumed_iterator!([T, F0] Map<T, F0>, T, |s| s.mitems());
+assumed_iterator!([T] FlatMap<T>, T, |s| s.fmitems());
+
+verus! {
+
+impl<'a, T, P> IntoIter for &'a Punctuated<T, P> {
+    type Item = &'a T;
+    open spec fn into_items(&self) -> Seq<&'a T> { refs(self.pseq()) }
 }
-
-impl<T, F0> Iterator for Map<T, F0> {
+impl<T, P> Punctuated<T, P> {
+    #[verifier::external_body]
+    pub fn iter<'a>(&'a self) -> (r: Iter<'a, T>)
+        ensures r@ == self.pseq(), r.items() == refs(self.pseq()),
+    { unimplemented!() }
+}
+impl<T> IntoIter for Vec<T> {
     type Item = T;
-    open spec fn items(&self) -> Seq<T> { self.mitems() }
-    #[verifier::external_body]
-    fn find<P: Fn(&Self::Item) -> bool>(&mut self, predicate: P) -> (r: Option<Self::Item>) { unimplemented!() }
-    #[verifier::external_body]
-    fn filter<P: Fn(&Self::Item) -> bool>(self, predicate: P) -> (r: Filter<Self::Item, P>) { unimplemented!() }
-    #[verifier::external_body]
-    fn any<P: Fn(Self::Item) -> bool>(&mut self, predicate: P) -> (r: bool) { unimplemented!() }
-    #[verifier::external_body]
-    fn map<B, F: Fn(Self::Item) -> B>(self, f: F) -> (r: Map<B, F>) { unimplemented!() }
+    open spec fn into_items(&self) -> Seq<T> { self@ }
+}
+impl<T> FromIter<T> for Vec<T> {
+    open spec fn collected(&self) -> Seq<T> { self@ }
 }
 
+// ---------------------------------------------------------------- Option::iter (ASSUMED contract on core::option)
+#[verifier::external_type_specification]
+#[verifier::external_body]
+#[verifier::reject_recursive_types(T)]
+pub struct ExOptionIter<'a, T: 'a>(core::option::Iter<'a, T>);
+
+pub uninterp spec fn opt_iter_items<'a, T>(it: core::option::Iter<'a, T>) -> Seq<&'a T>;
+
+pub assume_specification<'a, T> [core::option::Option::<T>::iter] (o: &'a Option<T>) -> (r: core::option::Iter<'a, T>)
+    ensures opt_iter_items(r) == (match *o { Some(v) => seq![&v], None => Seq::<&T>::empty() });
+
+} // verus!
+assumed_iterator!(['a, T] core::option::Iter<'a, T>, &'a T, |s| opt_iter_items(*s));
+verus! {
 
 // ---------------------------------------------------------------- Peekable (ASSUMED contracts on core::iter::Peekable)
 #[verifier::external_body]
@@ -1467,14 +1534,72 @@ impl<'a, T> Iter<'a, T> {
 }
 
 // Vec<TokenStream> under quote's `#(#v)*`
+pub open spec fn toks_of(s: Seq<TokenStream>) -> Seq<Seq<Tok>> { s.map_values(|t: TokenStream| t@) }
+
 impl RepToTokens for Vec<TokenStream> {
-    open spec fn rep_toks(&self) -> Seq<Seq<Tok>> { self@.map_values(|t: TokenStream| t@) }
+    open spec fn rep_toks(&self) -> Seq<Seq<Tok>> { toks_of(self@) }
 }
 
 } // verus!
 
 macro_rules! vec {
     () => { Vec::new() };
+}
+
+// proved facts about flat / toks_of (not assumptions)
+pub mod flat_lemmas {
+    use super::*;
+    verus! {
+    pub broadcast proof fn lemma_toks_of_push(s: Seq<TokenStream>, t: TokenStream)
+        ensures #[trigger] toks_of(s.push(t)) == toks_of(s).push(t@),
+    { assert(toks_of(s.push(t)) =~= toks_of(s).push(t@)); }
+
+    pub broadcast proof fn lemma_flat_concat(a: Seq<Seq<Tok>>, b: Seq<Seq<Tok>>)
+        ensures #[trigger] flat(a + b) == flat(a) + flat(b),
+        decreases a.len(),
+    {
+        if a.len() == 0 {
+            assert(a + b =~= b);
+            assert(flat(a) + flat(b) =~= flat(b));
+        } else {
+            assert((a + b).drop_first() =~= a.drop_first() + b);
+            lemma_flat_concat(a.drop_first(), b);
+            assert(flat(a + b) =~= flat(a) + flat(b));
+        }
+    }
+
+    pub broadcast proof fn lemma_flat_push(s: Seq<Seq<Tok>>, x: Seq<Tok>)
+        ensures #[trigger] flat(s.push(x)) == flat(s) + x,
+    {
+        assert(s.push(x) =~= s + seq![x]);
+        lemma_flat_concat(s, seq![x]);
+        assert(seq![x].drop_first() =~= Seq::<Seq<Tok>>::empty());
+        assert(flat(Seq::<Seq<Tok>>::empty()) =~= Seq::<Tok>::empty());
+        assert(seq![x][0] == x);
+        assert(flat(seq![x]) =~= x + flat(seq![x].drop_first()));
+        assert(flat(seq![x]) =~= x);
+    }
+
+    pub broadcast proof fn lemma_flat_singleton(x: Seq<Tok>)
+        ensures #[trigger] flat(seq![x]) == x,
+    {
+        assert(seq![x].drop_first() =~= Seq::<Seq<Tok>>::empty());
+        assert(flat(Seq::<Seq<Tok>>::empty()) =~= Seq::<Tok>::empty());
+        assert(seq![x][0] == x);
+        assert(flat(seq![x]) =~= x + flat(seq![x].drop_first()));
+        assert(flat(seq![x]) =~= x);
+    }
+
+    pub broadcast proof fn lemma_flat_empty()
+        ensures #[trigger] flat(Seq::<Seq<Tok>>::empty()) == Seq::<Tok>::empty(),
+    {}
+
+    pub broadcast proof fn lemma_toks_of_empty()
+        ensures #[trigger] toks_of(Seq::<TokenStream>::empty()) == Seq::<Seq<Tok>>::empty(),
+    { assert(toks_of(Seq::<TokenStream>::empty()) =~= Seq::<Seq<Tok>>::empty()); }
+
+    pub broadcast group group_flat { lemma_toks_of_push, lemma_flat_concat, lemma_flat_push, lemma_flat_singleton, lemma_flat_empty, lemma_toks_of_empty }
+    }
 }
 // ---- Option adapters: assumed contracts on core::option (trusted base) ----
 verus! {
